@@ -1,11 +1,13 @@
 package sim
 
 import (
+	"encoding/hex"
 	"encoding/json"
 	"fmt"
 	"os"
 	"sort"
 	"strings"
+	"unicode/utf8"
 
 	"verif/sim/model"
 	"verif/sim/val"
@@ -33,6 +35,42 @@ type Op struct {
 	Crash     int    `json:"crash,omitempty"`    // crash before the k-th faultable store call of this op
 	CrashPost bool   `json:"crashPost,omitempty"`
 	Note      string `json:"note,omitempty"`
+}
+
+// Strings that are not valid UTF-8 (cursor keys, ids) would be mangled by
+// encoding/json; they are written as "\x01hex:<hex>" so that replay is exact.
+func encStr(s string) string {
+	if utf8.ValidString(s) && !strings.HasPrefix(s, "\x01hex:") {
+		return s
+	}
+	return "\x01hex:" + hex.EncodeToString([]byte(s))
+}
+
+func decStr(s string) string {
+	if strings.HasPrefix(s, "\x01hex:") {
+		if b, err := hex.DecodeString(strings.TrimPrefix(s, "\x01hex:")); err == nil {
+			return string(b)
+		}
+	}
+	return s
+}
+
+type opAlias Op
+
+func (o Op) MarshalJSON() ([]byte, error) {
+	a := opAlias(o)
+	a.ID, a.Coll, a.Field, a.Note = encStr(a.ID), encStr(a.Coll), encStr(a.Field), encStr(a.Note)
+	return json.Marshal(a)
+}
+
+func (o *Op) UnmarshalJSON(b []byte) error {
+	var a opAlias
+	if err := json.Unmarshal(b, &a); err != nil {
+		return err
+	}
+	a.ID, a.Coll, a.Field, a.Note = decStr(a.ID), decStr(a.Coll), decStr(a.Field), decStr(a.Note)
+	*o = Op(a)
+	return nil
 }
 
 // RunFile is a complete, explicit description of one simulated execution.
